@@ -129,6 +129,38 @@ class LenFile(object):
         self.closed = True
 
 
+class StreamBytes(bytes):
+    """Real bytes that remember which piece [start, stop) of which stream they are (both bounds concrete)."""
+
+    def __new__(cls, stream, start, stop):
+        self = bytes.__new__(cls, stream[start:stop])
+        self.stream = stream
+        self.start = start
+        self.stop = stop
+        return self
+
+    def __add__(self, other):
+        if isinstance(other, AbsBytes):
+            return other.__radd__(self)
+        if isinstance(other, StreamBytes) and other.stream is self.stream and other.start == self.stop:
+            return StreamBytes(self.stream, self.start, other.stop)
+        return bytes.__add__(self, other)
+
+    def __radd__(self, other):
+        if isinstance(other, bytes) and len(other) == 0:
+            return self
+        return bytes.__add__(other, self)
+
+    def __getitem__(self, key):
+        if isinstance(key, slice) and key.step is None:
+            n = self.stop - self.start
+            a, b, _ = key.indices(n)
+            if b < a:
+                b = a
+            return StreamBytes(self.stream, self.start + a, self.start + b)
+        return bytes.__getitem__(self, key)
+
+
 class AbsBytes(object):
     """Window [start, stop) of a concrete stream; bounds may be symbolic.  Supports +, +=, len, truth, [a:b], [i]."""
 
@@ -146,23 +178,34 @@ class AbsBytes(object):
         return False
 
     def __add__(self, other):
+        if isinstance(other, StreamBytes):
+            other = AbsBytes(other.stream, other.start, other.stop)
         if isinstance(other, bytes) and not isinstance(other, LenSeq):
             if len(other) == 0:
                 return self
+            if len(self) == 0:
+                return other
             raise api.HarnessUnsupported('AbsBytes + non-empty bytes')
-        if not isinstance(other, AbsBytes) or other.stream is not self.stream:
+        if not isinstance(other, AbsBytes):
             raise api.HarnessUnsupported('AbsBytes + foreign')
         if len(other) == 0:
             return self
-        if len(self) == 0:
-            return other
+        if other.stream is not self.stream:
+            if len(self) == 0:
+                return other
+            raise api.HarnessUnsupported('AbsBytes + window of another stream')
         if other.start != self.stop:
+            if len(self) == 0:
+                return other
             raise api.HarnessUnsupported('AbsBytes + non-adjacent window')
+        # adjacent (also when self is empty): keep self.start, which is the determined one after a PDU was sliced off
         return AbsBytes(self.stream, self.start, other.stop)
 
     def __radd__(self, other):
         if isinstance(other, bytes) and len(other) == 0:
             return self
+        if isinstance(other, StreamBytes) and other.stream is self.stream:
+            return AbsBytes(other.stream, other.start, other.stop).__add__(self)
         raise api.HarnessUnsupported('bytes + AbsBytes')
 
     def __getitem__(self, key):
@@ -178,7 +221,10 @@ class AbsBytes(object):
             b = _min(b, ln)
             if b < a:
                 b = a
-            return AbsBytes(self.stream, self.start + a, self.start + b)
+            lo, hi = self.start + a, self.start + b
+            if key.stop is not None and _concrete_int(lo) and _concrete_int(hi):
+                return StreamBytes(self.stream, lo, hi)   # a fully determined piece of the stream: real bytes
+            return AbsBytes(self.stream, lo, hi)
         if key < 0 or key >= ln:
             raise IndexError('index out of range')
         return self.concrete_at(self.start + key)
